@@ -322,7 +322,12 @@ AtomicMove<SlotType, BUFFER_SIZE> {
                 match self.dequeuer_head.compare_exchange_weak(slot_id.overflowing_add(1).0, slot_id, Relaxed, Relaxed) {
                     Ok(_) => {
                         if !report_empty_fn() {
-                            return None;
+                            // only give up if the queue is still empty: an element published while we were receding
+                            // might have been left for us by a consumer that got ahead of us and has already given up
+                            if self.tail.load(Relaxed).overflowing_sub(slot_id).0 as i32 <= 0 {
+                                return None;
+                            }
+                            slot_id = self.dequeuer_head.fetch_add(1, Relaxed);
                         } else {
                             slot_id = self.dequeuer_head.fetch_add(1, Relaxed);
                         }
